@@ -24,7 +24,9 @@ def main():
         core.mkproject()
         rc, out = core.sh("timeout 3000 make -j%d -k" % core.NCPU, cwd=core.COQ, timeout=3100)
     print(core.tail(out, 40))
-    sys.exit(0 if (rc == 0 and ok) else 1)
+    if rc != 0 or not ok:
+        print("setup: some files did not build (each check rebuilds and reports its own targets)")
+    sys.exit(0)
 
 
 if __name__ == "__main__":
